@@ -187,13 +187,16 @@ def check(ctx) -> None:
         exprs.append((ex, next(k.value for k in first.keywords if k.arg == "timeout"), "TestCaseExecutor.execute: first join"))
     SUB = "pynguin.testcase.subprocess_executor"
     if repo.has_module(SUB):
-        for qn_ in ("SubprocessTestCaseExecutor._calculate_timeout_for_single", "SubprocessTestCaseExecutor._calculate_timeout_for_multiple"):
-            f_ = repo.try_func(SUB, qn_)
-            if f_ is not None:
-                ctx.analysed(f_)
-                r_ = next((s_ for s_ in f_.body if isinstance(s_, ast.Return)), None)
-                if r_ is not None:
-                    exprs.append((f_, r_.value, qn_))
+        tfs_ = [q for q in repo.module(SUB).functions if q.split(".")[-1].startswith("_calculate_timeout")]
+        if len(tfs_) < 2:
+            raise AnalysisError("anchor vanished: the subprocess executor's _calculate_timeout* functions")
+        for qn_ in tfs_:
+            f_ = repo.func(SUB, qn_)
+            ctx.analysed(f_)
+            r_ = next((s_ for s_ in f_.body if isinstance(s_, ast.Return)), None)
+            if r_ is None:
+                raise AnalysisError(f"{qn_} has no top-level return: the timeout it computes cannot be interpreted")
+            exprs.append((f_, r_.value, qn_))
     for fn_, e_, label in exprs:
         try:
             vals = _budget(e_, fn_, (0, 1, 3, 1000))
